@@ -43,6 +43,7 @@ PeriodOK == st[1] = "period" =>
    LET s == st[2]  p == FromSeconds(s) IN
    /\ ToSeconds(p) = s /\ p[3] < 60 /\ p[4] < 60 /\ p[2] \in 0..255
    /\ ToSeconds(Negate(p)) = 0 - s /\ Negate(p)[2] = p[2] /\ Negate(p)[3] = p[3] /\ Negate(p)[4] = p[4]
+   /\ CompareTo(Negate(Negate(p)), p) = 0 /\ (s = 0 => CompareTo(Negate(p), p) = 0)     \* a "negative zero" equals zero
    /\ \A t \in {-921599, -1, 0, 1, s - 1, s + 1, 0 - s, 921599} :
         (t \in -921599..921599) => CompareTo(p, FromSeconds(t)) = (IF s < t THEN -1 ELSE IF s = t THEN 0 ELSE 1)
 HourMinuteOK == st[1] = "hm" =>
